@@ -165,6 +165,17 @@ INVARIANT Exclusive
     # ---- code -> spec: larger random inputs judged by TLC
     rng = random.Random(ctx.seed * 101 + 20)
     ev = list(gate_events)
+    # every offset that keeps the code units in a byte, with every byte value: NbEnc / NbDec written out (Codec.NbRoundTrip holds for all of
+    # them; the table above carries four offsets, the letters of both cases lie in between)
+    allb = bytes(range(256))
+    for off in range(0, 241):
+        want = bytes(x for b in allb for x in ((b >> 4) + off, (b & 15) + off))
+        e1 = core.outcome(utils.netbios_encode, allb, off)
+        e2 = core.outcome(utils.netbios_decode, want, off)
+        ctx.evaluations += 2
+        if e1 != ("ok", want) or e2 != ("ok", allb):
+            viol("netbios_encode" if e1 != ("ok", want) else "netbios_decode", "every_offset", {"off": off, "encode_ok": e1 == ("ok", want), "decode_ok": e2 == ("ok", allb)})
+        ctx.count_distinct(("nb_every_offset", off))
     N = 150 if q else 3000
     for i in range(N):
         d = bytes(rng.randrange(256) for _ in range(rng.choice([0, 1, 2, 3, 4, 5, 8, 31, 64, rng.randrange(200)])))
